@@ -27,9 +27,19 @@ def worker(case, led):
     from renormalizer.mps import Mpo, Mps, optimize_mps
     if kind == "chain":
         _, name, n, method, nroots, M, seed, tier = case
+        # "+stackedK": the same Hamiltonian handed to the optimiser as a StackedMpo of K operators (its terms dealt round-robin; the pieces need not be Hermitian)
+        full_name, stk = name, 0
+        if "+stacked" in name:
+            name, k_ = name.split("+stacked")
+            stk = int(k_)
         rng = np.random.default_rng([seed, n, 808, sum(map(ord, name))])
         model, terms, sectors = Dn.hamiltonian(name, n, rng)
         H = Mpo(model, terms)
+        if stk:
+            from renormalizer.mps import StackedMpo
+            Hopt = StackedMpo([Mpo(model, terms[i::stk]) for i in range(stk) if terms[i::stk]])
+        else:
+            Hopt = H
         Hd = Dn.dense_h(model, terms)
         # (long chains: the half-filled sector, whose middle bonds reach the limit - that is what takes the local problem over the 1000-amplitude switch)
         for q in ([sectors[len(sectors) // 2]] if n >= 10 else (sectors[1:3] if len(sectors) > 2 else sectors[:1])):
@@ -75,14 +85,14 @@ def worker(case, led):
             mps.optimize_config.procedure = [[Mv, 0.4], [Mv, 0.2], [Mv, 0.0], [Mv, 0.0], [Mv, 0.0]]
             mps.optimize_config.method = method
             mps.optimize_config.nroots = nroots
-            key = (name, n, str(q), method, nroots, M)
-            rep = {"model": name, "nsites": n, "sector": q, "method": method, "nroots": nroots, "M": Mv, "seed": seed, "exact_levels": lam[:4].tolist(), "initial_guess": guess + (" of canonical operands" if prepared else ""),
+            key = (full_name, n, str(q), method, nroots, M)
+            rep = {"model": full_name, "nsites": n, "sector": q, "method": method, "nroots": nroots, "M": Mv, "seed": seed, "exact_levels": lam[:4].tolist(), "initial_guess": guess + (" of canonical operands" if prepared else ""),
                    "guess_meta": {"qnidx": int(mps.qnidx), "to_right": bool(mps.to_right), "bond_dims": [int(b) for b in mps.bond_dims]}}
-            fields = {"method": method, "nroots": nroots}
+            fields = {"method": method, "nroots": nroots, "stacked": bool(stk)}
             st = np.random.get_state()
             np.random.seed(seed + 17)
             try:
-                energies, out = optimize_mps(mps, H)
+                energies, out = optimize_mps(mps, Hopt)
             except Exception as e:
                 led.check(False, "post:optimize_mps:total", "optimize_mps", f"raised {type(e).__name__}: {e}", key, fields, rep)
                 continue
@@ -180,6 +190,12 @@ def check(run):
         # matrix-free product); complex Hermitian Hamiltonian, one and several roots
         for nroots in (1, 3):
             cases.append(("chain", "spinqn-flux", 10, "2site", nroots, 16, s, run.tier))
+        # the Hamiltonian as a StackedMpo (sum of several operators, one environment each): same contract
+        for name, n, k_ in (("spinqn", 4, 2), ("holstein", 4, 3)) + ((("spinqn", 6, 3), ("spin", 4, 2)) if run.tier != "quick" else ()):
+            for method in ("2site", "1site"):
+                for nroots, M in ((1, None), (1, 2), (2, None)):
+                    cases.append(("chain", f"{name}+stacked{k_}", n, method, nroots, M, s, run.tier))
+        cases.append(("chain", "spinqn-flux+stacked2", 10, "2site", 1, 16, s, run.tier))
     run_cases(run, worker, cases)
     from props import C08_sym
     guarded(run, C08_sym.prove)
